@@ -58,4 +58,18 @@ CANARIES = [
          edits=[(NET, '        active_peers.remove(&peer_id, DisconnectReason::Requested);\n', '        let _ = (active_peers, peer_id);\n')]),
     dict(id='c-max-outstanding-default', unit=U, what='default cap changed', expect=['Config::max_outstanding::default_100'],
          edits=[(CFG, 'const MAX_CONCURRENT_OUTSTANDING_CONNECTING_CONNECTIONS: usize = 100;', 'const MAX_CONCURRENT_OUTSTANDING_CONNECTING_CONNECTIONS: usize = 1000;')]),
+    dict(id='d-drain-success-keeps-failures', unit='active_peers', what='a successful dial no longer clears the recorded failures', expect=['connectivity_check::drain_one::success_clears_failures'],
+         edits=[('crates/anemo/src/network/connection_manager.rs', '                    self.dial_backoff_states.remove(peer_id);\n                    false', '                    false')]),
+    dict(id='d-drain-in-flight-dropped', unit='active_peers', what='a dial still in flight is dropped from the pending set', expect=['connectivity_check::drain_one::in_flight_stays'],
+         edits=[('crates/anemo/src/network/connection_manager.rs', 'Err(oneshot::error::TryRecvError::Empty) => true,', 'Err(oneshot::error::TryRecvError::Empty) => false,')]),
+    dict(id='d-drain-failure-restarts-count', unit='active_peers', what='every failure restarts the failure count at one', expect=['connectivity_check::drain_one::failure_counts_one'],
+         edits=[('crates/anemo/src/network/connection_manager.rs', """                            entry.get_mut().update(
+                                now,
+                                self.config.connection_backoff(),
+                                self.config.max_connection_backoff(),
+                            );""", """                            *entry.get_mut() = DialBackoffState::new(
+                                now,
+                                self.config.connection_backoff(),
+                                self.config.max_connection_backoff(),
+                            );""")]),
 ]
